@@ -458,6 +458,8 @@ def run(ctx):
     IT.prove_passes(ctx)
     import props.C05_captions as CP
     CP.prove_captions(ctx)
+    import props.C06_line as LI
+    LI.prove_line(ctx)            # (a doubled code counts once also when a timecode line ends between its two copies)
     ctx.bounded("programs", "pop-on programs against a reference CEA-608 decoder: every PAC address (15x8), tab offset and "
                 "table code on its own, single and doubled (PAC TO doubled as a unit), and seeded programs of 1-3 rows in "
                 "ascending screen order with basic / special / extended characters, italic PACs, mid-row codes and "
